@@ -42,9 +42,15 @@ func (af *appendFn) lastDef(name string, pos token.Pos) (def ast.Expr, isVarDecl
 			for i, l := range x.Lhs {
 				if id, ok := l.(*ast.Ident); ok && id.Name == name {
 					if len(x.Lhs) == len(x.Rhs) {
-						if x.Tok == token.DEFINE || def == nil {
-							def, isVarDecl = x.Rhs[i], false
+						// x = append(x, ...) grows the slice, it does not redefine where it comes from
+						if ce, ok := x.Rhs[i].(*ast.CallExpr); ok && x.Tok != token.DEFINE {
+							if f, ok := ce.Fun.(*ast.Ident); ok && f.Name == "append" && len(ce.Args) > 0 {
+								if a, ok := ce.Args[0].(*ast.Ident); ok && a.Name == name {
+									continue
+								}
+							}
 						}
+						def, isVarDecl = x.Rhs[i], false
 					}
 				}
 			}
